@@ -533,6 +533,10 @@ def generate(tier, seed):
         rows = [[G.rand_string(rng, ["ACDEF", "GHIKL", "MNPQR"][j % 3], 140, 160), G.rand_string(rng, ["STVWY", "ACDEF", "GHIKL"][j % 3], 140, 160)] for j in range(6)]
         rows[1] = [G.mutate(rng, rows[0][0], "ACDEF", 5), G.mutate(rng, rows[0][1], "STVWY", 7)]
         yield "clustermap", {"rows": rows, "single": None, "index": None, "meta": False, "method": "average", "t": 40}, True
+    # different receptors whose chains concatenate to the same text when joined with "_", "" or "."
+    for j, sep in enumerate(["_", "", "."]):
+        rows = [["CAS", "SQ" + sep + "CAS"], ["CAS" + sep + "SQ", "CAS"], ["CASSQ", "CAS"], ["CAS", "CAS"], ["CAW", "SQ" + sep + "CAS"], ["CAS" + sep + "SQ", "CAW"]]
+        yield "clustermap", {"rows": rows, "single": None, "index": [None, "string", "shifted"][j], "meta": False, "method": ["average", "single", "complete"][j], "t": 2}, True
     cells = ["CAF", "CAAF", "CAW", "CF", "CASF", "CAAAF", "CASSF", "CAWWF"]
     n_c = 400 * TS if thorough else 16
     for i in range(n_c):
